@@ -57,90 +57,96 @@ def sandbox(files: dict | None):
 
 _TRACE = None          # list being filled, or None
 _PROGRAM = None
-_WRAPPED = False
-_ROLES = None          # {node class: canonical role name}
+_ROLES = None          # {canonical role name: node class}, from probes
+_SETPOS = [0]          # calls of Resolver.set_position seen by the spy (position moves announce themselves there)
+
+
+class HarnessFault(RuntimeError):
+    """The harness cannot instrument this tree (a name it relies on is gone): reported as a driver fault, never as a verdict."""
 
 
 def node_roles() -> dict:
-    """Which node class plays which role, found by BEHAVIOUR (what the code generator builds for `*=`, `@=`, a label,
-    `.incbin`, `.include_ips`), not by class name: a renamed or re-organised class keeps its role.  The canonical names
-    are only labels the rest of the harness uses.  A probe that fails is a harness fault (raised), never a verdict."""
+    """{role: class} for the roles the harness must recognise, found by what the code generator builds for a label, an
+    `.incbin` and an `.include_ips` (not by class name; instances are matched with isinstance, so subclasses keep the
+    role).  `*=` and `@=` are recognised per node by BEHAVIOUR instead (see _classify).  A probe that fails raises
+    HarnessFault."""
     global _ROLES
     if _ROLES is not None:
         return _ROLES
     from a816.program import Program
     patch = b"PATCH" + (0x10).to_bytes(3, "big") + (1).to_bytes(2, "big") + b"\x01" + b"EOF"
-    probes = [("CodePositionNode", "*=0x008000\n", lambda ns: ns[0]),
-              ("RelocationAddressNode", "@=0x008000\n", lambda ns: ns[0]),
-              ("LabelNode", "zz_probe:\n", lambda ns: ns[0]),
+    probes = [("LabelNode", "zz_probe:\n", lambda ns: ns[0]),
               ("IncludeIpsNode", ".include_ips 'zz_probe.ips', 0\n", lambda ns: ns[0]),
               ("BinaryNode", ".incbin 'zz_probe.bin'\n", lambda ns: [n for n in ns if hasattr(n, "symbol_base")][0])]
     roles = {}
-    with sandbox({"zz_probe.ips": patch, "zz_probe.bin": b"\x01\x02"}):
-        for name, src, pick in probes:
-            err, nodes = Program().parser.parse(src, "zz_probe.s")
-            if err is not None or not nodes:
-                raise RuntimeError(f"harness probe for the role {name} failed: {err}")
-            roles[type(pick(nodes))] = name
-    if len(roles) != len(probes):
-        raise RuntimeError(f"harness probes found {len(roles)} distinct node classes for {len(probes)} roles")
+    try:
+        with sandbox({"zz_probe.ips": patch, "zz_probe.bin": b"\x01\x02"}):
+            for name, src, pick in probes:
+                err, nodes = Program().parser.parse(src, "zz_probe.s")
+                if err is not None or not nodes:
+                    raise HarnessFault(f"probe for the role {name} failed: {err}")
+                roles[name] = type(pick(nodes))
+    except HarnessFault:
+        raise
+    except Exception as e:
+        raise HarnessFault(f"role probes failed: {type(e).__name__}: {e}") from e
+    if len(set(roles.values())) != len(roles):
+        raise HarnessFault("two of the label / binary / patch roles share one node class")
     _ROLES = roles
     return roles
 
 
 def role_name(node) -> str:
-    return node_roles().get(type(node)) or type(node).__name__
+    """Canonical role of a node as far as its class tells (labels, binaries, patches); positions are classified in assemble()."""
+    for name, cls in node_roles().items():
+        if isinstance(node, cls):
+            return name
+    return type(node).__name__
 
 
-def _install_wrappers():
-    global _WRAPPED
-    if _WRAPPED:
-        return
-    from a816.parse import nodes as N
-    node_roles()
-    classes = [c for c in vars(N).values() if isinstance(c, type) and hasattr(c, "pc_after") and hasattr(c, "emit")
-               and c.__module__ == N.__name__ and c.__name__ not in ("NodeProtocol", "AbstractTextNode")]
-    for cls in classes:
-        for meth in ("pc_after", "emit"):
-            if meth not in cls.__dict__:
-                continue
-            orig = cls.__dict__[meth]
-
-            def make(orig, meth):
-                def wrapper(self, addr):
-                    if _TRACE is None:
-                        return orig(self, addr)
-                    pc = _PROGRAM.resolver.pc if _PROGRAM is not None else None
-                    try:
-                        out = orig(self, addr)
-                    except BaseException:
-                        _TRACE.append((meth, id(self), role_name(self), addr.logical_value, pc, None))
-                        raise
-                    _TRACE.append((meth, id(self), role_name(self), addr.logical_value, pc,
-                                   out.logical_value if meth == "pc_after" else bytes(out)))
-                    return out
-                return wrapper
-            setattr(cls, meth, make(orig, meth))
-    # AbstractTextNode subclasses inherit pc_after/emit: wrap on the base class
+def _wrap_class(cls):
+    """Record every pc_after / emit call on instances of [cls] (whatever module it lives in, whatever it inherits from)."""
     for meth in ("pc_after", "emit"):
-        orig = N.AbstractTextNode.__dict__[meth]
+        orig = getattr(cls, meth, None)
+        if orig is None or getattr(orig, "_a816v_wrapped", False):
+            continue
 
-        def make2(orig, meth):
+        def make(orig, meth):
             def wrapper(self, addr):
                 if _TRACE is None:
                     return orig(self, addr)
-                pc = _PROGRAM.resolver.pc if _PROGRAM is not None else None
+                res = _PROGRAM.resolver if _PROGRAM is not None else None
+                pc = res.pc if res is not None else None
+                before = _SETPOS[0]
                 try:
                     out = orig(self, addr)
                 except BaseException:
-                    _TRACE.append((meth, id(self), role_name(self), addr.logical_value, pc, None))
+                    _TRACE.append((meth, id(self), role_name(self), addr.logical_value, pc, None, None))
                     raise
+                # what the call did besides returning: pc_after -> the resolver's relocation flag; emit -> whether it moved
+                # the position through Resolver.set_position
+                extra = (getattr(res, "reloc", None) if meth == "pc_after" else _SETPOS[0] > before)
                 _TRACE.append((meth, id(self), role_name(self), addr.logical_value, pc,
-                               out.logical_value if meth == "pc_after" else bytes(out)))
+                               out.logical_value if meth == "pc_after" else bytes(out), extra))
                 return out
+            wrapper._a816v_wrapped = True
             return wrapper
-        setattr(N.AbstractTextNode, meth, make2(orig, meth))
-    _WRAPPED = True
+        setattr(cls, meth, make(orig, meth))
+
+
+def _spy_set_position(resolver):
+    cls = type(resolver)
+    orig = getattr(cls, "set_position", None)
+    if orig is None:
+        raise HarnessFault("Resolver.set_position is gone")
+    if getattr(orig, "_a816v_wrapped", False):
+        return
+
+    def spy(self, *a, **k):
+        _SETPOS[0] += 1
+        return orig(self, *a, **k)
+    spy._a816v_wrapped = True
+    cls.set_position = spy
 
 
 def parse(src: str, files: dict | None = None, filename: str = "m.s"):
@@ -161,9 +167,11 @@ def assemble(src: str, files: dict | None = None, rom: str | None = None, define
     from a816.cpu.cpu_65c816 import RomType
     from a816.program import Program
     if trace:
-        _install_wrappers()
+        node_roles()
     with sandbox(files):
         program = Program()
+        if trace:
+            _spy_set_position(program.resolver)
         if rom is not None:
             program.resolver.rom_type = RomType[ROMS[rom]]
         for k, v in (defines or {}).items():
@@ -176,6 +184,8 @@ def assemble(src: str, files: dict | None = None, rom: str | None = None, define
             def parse_capture(text, fname=""):
                 err, nodes = orig_parse(text, fname)
                 captured["nodes"] = nodes
+                for cls in {type(n) for n in nodes or []}:      # instrument exactly the classes this program is made of
+                    _wrap_class(cls)
                 return err, nodes
             program.parser.parse = parse_capture
             _TRACE, _PROGRAM = [], program
@@ -183,7 +193,7 @@ def assemble(src: str, files: dict | None = None, rom: str | None = None, define
 
             def reset_marker():
                 if _TRACE is not None:
-                    _TRACE.append(("reset", 0, "", 0, 0, None))
+                    _TRACE.append(("reset", 0, "", 0, 0, None, None))
                 return orig_reset()
             program.resolver_reset = reset_marker
         out: dict
@@ -207,12 +217,28 @@ def assemble(src: str, files: dict | None = None, rom: str | None = None, define
             nodes = captured["nodes"]
             index = {id(n): i for i, n in enumerate(nodes)}
             p1, p2, em, resets = [], [], [], 0
-            for meth, nid, cname, a, pc, res in tr or []:
+            # `*=` / `@=` by behaviour: a node whose emit moved the position (Resolver.set_position) and returned nothing is a
+            # position move; it is a relocation (@=) when its pc_after left the resolver's relocation flag set, else an origin (*=)
+            reloc_flag, moved = {}, {}
+            for meth, nid, cname, a, pc, res, extra in tr or []:
+                if meth == "pc_after":
+                    reloc_flag[nid] = extra
+                elif meth == "emit" and extra and res == b"":
+                    moved[nid] = True
+
+            def classify(nid, cname):
+                if moved.get(nid):
+                    if reloc_flag.get(nid) is None:
+                        raise HarnessFault("cannot tell *= from @=: the resolver has no `reloc` flag")
+                    return "RelocationAddressNode" if reloc_flag[nid] else "CodePositionNode"
+                return cname
+            for meth, nid, cname, a, pc, res, extra in tr or []:
                 if meth == "reset":
                     resets += 1
                     continue
                 if nid not in index:
                     continue
+                cname = classify(nid, cname)
                 rec = [index[nid], cname, a, pc, list(res) if isinstance(res, bytes) else res]
                 if meth == "pc_after" and cname in ("LabelNode", "BinaryNode"):
                     nd = nodes[index[nid]]
@@ -226,6 +252,10 @@ def assemble(src: str, files: dict | None = None, rom: str | None = None, define
                     p1.append(rec)
                 else:
                     p2.append(rec)
-            out["trace"] = {"nodes": [role_name(n) for n in nodes], "pass1": p1, "pass2": p2, "emit": em,
+            # every node of the program must have been seen by some pass (a node the wrappers missed would make the
+            # oracle read bytes "no node emitted"): otherwise this is a harness fault
+            if "ok" in out and {r[0] for r in p1 + p2 + em} != set(range(len(nodes))):
+                raise HarnessFault("some nodes of the program were not traced")
+            out["trace"] = {"nodes": [classify(id(n), role_name(n)) for n in nodes], "pass1": p1, "pass2": p2, "emit": em,
                             "end_pc": program.resolver.pc}
     return out
